@@ -1,11 +1,11 @@
 package props
 
 import (
-	"sort"
 	"fmt"
 	"go/ast"
 	"go/token"
 	"go/types"
+	"sort"
 	"strings"
 
 	"golibcheck/internal/core"
@@ -635,56 +635,69 @@ func c14Geometry(p *core.Program, r *core.Report) {
 		}
 		lf := &linForm{info: info, body: fi.Decl.Body, pos: posObj, L: lw}
 		masks, idx, shifts := 0, 0, 0
+		// the method's own body and, for every helper of the package it calls, what that helper
+		// returns with the arguments in place (slotMask(shift) reads as 0x1f << shift)
+		roots := []ast.Node{fi.Decl.Body}
 		ast.Inspect(fi.Decl.Body, func(n ast.Node) bool {
-			switch v := n.(type) {
-			case *ast.IndexExpr:
-				if strings.HasPrefix(stripSpaces(types.ExprString(v.X)), rn+".M") && name != "Merge" {
-					idx++
-					if f, ok := lf.eval(v.Index, 0); !ok || !f.is(map[string]int64{"Q": 1}) {
-						probs = append(probs, "word index "+stripSpaces(types.ExprString(v.Index))+" is not position/LOG2_BITS_PER_WORD")
-					}
-				}
-			case *ast.BinaryExpr:
-				if v.Op == token.SHL || v.Op == token.SHR {
-					if _, isC := constIntOf(info, v.Y); !isC {
-						shifts++
-						f, ok := lf.eval(v.Y, 0)
-						want := map[string]int64{"R": rs}
-						if name == "Merge" {
-							want = nil
-						}
-						switch {
-						case !ok:
-							probs = append(probs, "shift amount "+stripSpaces(types.ExprString(v.Y))+" is not a linear expression of the register position")
-						case name != "Merge" && !f.is(want):
-							probs = append(probs, "bit offset "+stripSpaces(types.ExprString(v.Y))+" is not REGISTER_SIZE*(position mod LOG2_BITS_PER_WORD)")
-						case name == "Merge" && !f.singleVarTimes(rs) && !f.singleVarTimes(1):
-							probs = append(probs, "merge does not shift by REGISTER_SIZE*j")
-						}
-					}
-					if v.Op == token.SHL {
-						x := stripConvs(info, v.X)
-						if mv, ok := constIntOf(info, x); ok && mv > 1 {
-							masks++
-							if mv != wantMask {
-								probs = append(probs, fmt.Sprintf("register mask %#x, want %#x", mv, wantMask))
-							}
-						}
-					}
-				}
-				if v.Op == token.AND {
-					for _, side := range []ast.Expr{v.X, v.Y} {
-						if mv, ok := constIntOf(info, stripConvs(info, side)); ok && mv > 1 {
-							masks++
-							if mv != wantMask {
-								probs = append(probs, fmt.Sprintf("register mask %#x, want %#x", mv, wantMask))
-							}
-						}
-					}
+			if call, ok := n.(*ast.CallExpr); ok {
+				for _, re := range helperResults(p, info, call) {
+					roots = append(roots, re)
 				}
 			}
 			return true
 		})
+		for _, root := range roots {
+			ast.Inspect(root, func(n ast.Node) bool {
+				switch v := n.(type) {
+				case *ast.IndexExpr:
+					if strings.HasPrefix(stripSpaces(types.ExprString(v.X)), rn+".M") && name != "Merge" {
+						idx++
+						if f, ok := lf.eval(v.Index, 0); !ok || !f.is(map[string]int64{"Q": 1}) {
+							probs = append(probs, "word index "+stripSpaces(types.ExprString(v.Index))+" is not position/LOG2_BITS_PER_WORD")
+						}
+					}
+				case *ast.BinaryExpr:
+					if v.Op == token.SHL || v.Op == token.SHR {
+						if _, isC := constIntOf(info, v.Y); !isC {
+							shifts++
+							f, ok := lf.eval(v.Y, 0)
+							want := map[string]int64{"R": rs}
+							if name == "Merge" {
+								want = nil
+							}
+							switch {
+							case !ok:
+								probs = append(probs, "shift amount "+stripSpaces(types.ExprString(v.Y))+" is not a linear expression of the register position")
+							case name != "Merge" && !f.is(want):
+								probs = append(probs, "bit offset "+stripSpaces(types.ExprString(v.Y))+" is not REGISTER_SIZE*(position mod LOG2_BITS_PER_WORD)")
+							case name == "Merge" && !f.singleVarTimes(rs) && !f.singleVarTimes(1):
+								probs = append(probs, "merge does not shift by REGISTER_SIZE*j")
+							}
+						}
+						if v.Op == token.SHL {
+							x := stripConvs(info, v.X)
+							if mv, ok := constIntOf(info, x); ok && mv > 1 {
+								masks++
+								if mv != wantMask {
+									probs = append(probs, fmt.Sprintf("register mask %#x, want %#x", mv, wantMask))
+								}
+							}
+						}
+					}
+					if v.Op == token.AND {
+						for _, side := range []ast.Expr{v.X, v.Y} {
+							if mv, ok := constIntOf(info, stripConvs(info, side)); ok && mv > 1 {
+								masks++
+								if mv != wantMask {
+									probs = append(probs, fmt.Sprintf("register mask %#x, want %#x", mv, wantMask))
+								}
+							}
+						}
+					}
+				}
+				return true
+			})
+		}
 		if masks == 0 {
 			probs = append(probs, "no register mask found")
 		}
@@ -801,6 +814,18 @@ func (l *linForm) singleDef(obj types.Object) ast.Expr {
 						n++
 					}
 				}
+			} else if len(v.Rhs) == 1 {
+				// bucket, shift := slotOf(position): what the helper computes for that result
+				for i, lh := range v.Lhs {
+					if id, ok := lh.(*ast.Ident); ok && l.info.ObjectOf(id) == obj {
+						n++
+						if call, ok := ast.Unparen(v.Rhs[0]).(*ast.CallExpr); ok {
+							if rs := helperResults(curProg, l.info, call); i < len(rs) {
+								def = rs[i]
+							}
+						}
+					}
+				}
 			}
 		case *ast.IncDecStmt:
 			if id, ok := v.X.(*ast.Ident); ok && l.info.ObjectOf(id) == obj {
@@ -824,6 +849,10 @@ func (l *linForm) eval(e ast.Expr, depth int) (lform, bool) {
 		return lform{"": v}, true
 	}
 	switch v := e.(type) {
+	case *ast.CallExpr:
+		if rs := helperResults(curProg, l.info, v); len(rs) == 1 {
+			return l.eval(rs[0], depth+1)
+		}
 	case *ast.Ident:
 		obj := l.info.ObjectOf(v)
 		if obj != nil && obj == l.pos {
